@@ -120,6 +120,8 @@ def expected_class(tp: AnyType) -> type:
     origin = get_origin_or_type2(tp)
     if origin is NoneType:
         return NoneType
+    elif origin is Any:  # Any is a class since Python 3.11
+        return object
     elif is_typed_dict(origin):
         return collections.abc.Mapping
     elif is_type(origin):
